@@ -923,6 +923,20 @@ def q_exists(interp, args, kwargs):
     return _quant(interp, args, False)
 
 
+def m_is_item(interp, args, kwargs):
+    """contracts.common.is_item: an element of a symbolic list of objects (a handle) against an object"""
+    item, obj = args
+    from .mlist import handle_of
+    if isinstance(item, (SOpt, SChoice)):
+        item = interp.resolve(item)
+    if isinstance(item, (SInt, int)) and not isinstance(item, bool):
+        h = obj.t if isinstance(obj, SInt) else handle_of(interp, obj)
+        return wrap(to_z3(item) == h)
+    if isinstance(obj, SInt):
+        return wrap(handle_of(interp, item) == obj.t)
+    return item is obj
+
+
 def m_is_opaque(interp, args, kwargs):
     return isinstance(args[0], Opaque)
 
